@@ -14,6 +14,7 @@ import (
 func (r *rewriter) collectMapAccesses() {
 	info := r.pkg.TypesInfo
 	var stack []ast.Node
+	objMode := false
 	isMap := func(e ast.Expr) bool {
 		tv, ok := info.Types[e]
 		if !ok || tv.Type == nil {
@@ -108,9 +109,20 @@ func (r *rewriter) collectMapAccesses() {
 		if write {
 			fn = "MapW"
 		}
+		if objMode {
+			fn = "ObjR"
+			if write {
+				fn = "ObjW"
+			}
+		}
 		pos := r.fset.Position(at.Pos())
 		lit := &ast.BasicLit{Kind: token.STRING, Value: fmt.Sprintf("%q", fmt.Sprintf("%s:%d", r.rel, pos.Line))}
 		r.mapChecks[anchor] = append(r.mapChecks[anchor], &ast.ExprStmt{X: r.rtCall(fn, m, lit)})
+	}
+	addObj := func(obj ast.Expr, write bool, at ast.Node) {
+		objMode = true
+		add(obj, write, at)
+		objMode = false
 	}
 	writes := map[ast.Expr]bool{}
 	ast.Inspect(r.file, func(n ast.Node) bool {
@@ -139,8 +151,23 @@ func (r *rewriter) collectMapAccesses() {
 					add(x.Args[0], true, x)
 				}
 			}
+			// container/list: a linked list mutated by two goroutines at once is corrupted just like a map
+			if f, sel := r.methodOf(x); f != nil && sel != nil {
+				if w, ok := listMethods[f.FullName()]; ok {
+					addObj(sel.X, w, x)
+				}
+			}
 		}
 		stack = append(stack, n)
 		return true
 	})
+}
+
+// listMethods: methods of *container/list.List and whether they modify the list.
+var listMethods = map[string]bool{
+	"(*container/list.List).PushBack": true, "(*container/list.List).PushFront": true, "(*container/list.List).Remove": true,
+	"(*container/list.List).MoveBefore": true, "(*container/list.List).MoveAfter": true, "(*container/list.List).MoveToFront": true,
+	"(*container/list.List).MoveToBack": true, "(*container/list.List).InsertBefore": true, "(*container/list.List).InsertAfter": true,
+	"(*container/list.List).Init": true, "(*container/list.List).PushBackList": true, "(*container/list.List).PushFrontList": true,
+	"(*container/list.List).Front": false, "(*container/list.List).Back": false, "(*container/list.List).Len": false,
 }
